@@ -154,6 +154,11 @@ func c05(r *core.Report) {
 	// ---- C05-CHECKKEY-SHAPE
 	r.Rule("C05-CHECKKEY-SHAPE", "checkKey returns nil only via (known ∧ equal) or (unknown ∧ AcceptKey)", 1)
 	ruleCheckKeyShape(r, c, "C05-CHECKKEY-SHAPE")
+	// ---- C05-KEY-EQUALITY (shared with C17-FIELDS): "same key" is decided by EqualPublicKeys; it must
+	// compare every field (algorithm and key bytes) or a different key passes as the pinned one and skips
+	// AcceptKey
+	r.Rule("C05-KEY-EQUALITY", "EqualPublicKeys touches every field of PublicKey", 1)
+	ruleKeyFields(r, "C05-KEY-EQUALITY", true)
 	// ---- C05-KEY-WRITERS: "same key forever": the pinned key is written by onReadySession only (there
 	// under the judgement, PROMOTE-CHECK): any other store — a reset to zero after an idle expiry, a
 	// copy from elsewhere — makes checkKey fall back to AcceptKey and lets a different acceptable key in
